@@ -254,13 +254,8 @@ theorem search_root_name (main : List Lang) (pubid sysid : Option Bytes) (r : By
 
 /-- Whatever `searchTable` answers is an entry of the table. -/
 theorem search_mem (main : List Lang) (pubid sysid root : Option Bytes) (l : Lang)
-    (h : searchTable main pubid sysid root = some l) : l ∈ main := by
-  rw [search_order] at h
-  simp only [Option.or_eq_some_iff, byPub, bySys, byRoot, Option.bind_eq_some_iff] at h
-  rcases h with (⟨p, _, h⟩ | ⟨_, s, _, h⟩) | ⟨_, r, _, h⟩
-  · exact List.mem_of_find?_eq_some h
-  · exact List.mem_of_find?_eq_some h
-  · split at h <;> exact List.mem_of_find?_eq_some h
+    (h : searchTable main pubid sysid root = some l) : l ∈ main :=
+  searchTable_mem main pubid sysid root l h
 
 /-- **No match ⇒ no language.** -/
 theorem search_none (main : List Lang) (pubid sysid root : Option Bytes)
